@@ -820,6 +820,8 @@ fn exec_inner<M: MemRead>(row: usize, f: &Fields, len: usize, i: &RefIn, mem: &M
                         return o.any("memory-indirect vector at an odd address");
                     }
                     if !all_mapped(va, 4) {
+                        // the frame may already have been pushed when the vector read fails
+                        wr_n_dontcare(&mut o, fa, 4, true);
                         return o.err("vector outside the address map");
                     }
                     vec_read = true;
